@@ -16,7 +16,7 @@ from fractions import Fraction
 
 import numpy as np
 
-from ..coqgen import B, C, L, N, Q, Z
+from ..coqgen import B, C, L, N, Q
 from ..fin import fm, T, err_class, magnitude
 
 ID = "C11"
@@ -29,7 +29,7 @@ RULE = (
     "with consumer requests on / between / across several publications and exactly at the step position, for "
     "NextTime, PreviousTime, LinearTime and StepTime(step in {0,1/4,1/2,1,1/8,3/4,1/3,2/3,1/10,3/10}), scalar and "
     "small gridded payloads, plus a malformed stream (requests before the first / after the last publication, "
-    "decreasing requests, pulls before any publication); non-trivial = at least 3 publications, at least two "
+    "pulls before any publication); non-trivial = at least 3 publications, at least two "
     "successful pulls in at least two different publication intervals, one of them strictly between publications; "
     "distinct by canonical case hash"
 )
@@ -50,7 +50,7 @@ GAPS = [1, 2, 3, 5, 7, 10, 1000, 999999, 10**6, 3600 * 10**6, DAY, DAY + 1, 10 *
 POW2_GAPS = [1, 2, 4, 8, 16, 1024, 2**20]
 STEPS = [[0, 1], [1, 4], [1, 2], [1, 1], [1, 8], [3, 4], [1, 3], [2, 3], [1, 10], [3, 10]]
 KINDS = ["next", "prev", "linear", "step"]
-SHAPES = [[], [], [], [2], [2, 3], [3, 1]]
+SHAPES = [[], [], [], [2], [2, 2], [3, 1]]
 
 
 def _val(rng, dyadic):
@@ -75,7 +75,7 @@ def _gen_case(rng, malformed, kind=None):
     gaps = rng.sample(POW2_GAPS if exact else GAPS, rng.choice([1, 2, 3]))
     if not exact and rng.random() < 0.3:
         gaps.append(rng.randint(1, 2**39))
-    nops = rng.randint(4, 30)
+    nops = rng.randint(4, 22)
     t = rng.choice([0, 0, 5, DAY])
     pubs = []
     ops = []
@@ -103,8 +103,9 @@ def _gen_case(rng, malformed, kind=None):
         lo = pubs[0] if last_req is None else last_req
         hi = pubs[-1]
         if malformed and rng.random() < 0.35:
-            r = rng.choice([pubs[0] - 1, hi + 1, pubs[0] - rng.choice(gaps), hi + rng.choice(gaps),
-                            max(pubs[0], lo - rng.choice(gaps)), rng.randint(pubs[0], hi)])
+            # out-of-range requests only: the answer to a DEcreasing in-range request depends on what
+            # happens to be retained and is not specified by the property
+            r = rng.choice([pubs[0] - 1, hi + 1, pubs[0] - rng.choice(gaps), hi + rng.choice(gaps)])
         else:
             cands = [p for p in pubs if lo <= p <= hi]
             mode = rng.random()
@@ -131,7 +132,7 @@ def _gen_case(rng, malformed, kind=None):
                 r = rng.randint(lo, hi)
         ops.append(["pull", r])
         if pubs[0] <= r <= pubs[-1]:
-            last_req = r if (last_req is None or malformed) else max(r, last_req)
+            last_req = r if last_req is None else max(r, last_req)
     return {"kind": kind, "step": step, "shape": shape, "exact": exact, "ops": ops}
 
 
@@ -159,10 +160,10 @@ CORPUS = [
     # single buffered entry after eviction, then new publications (single-entry shortcut; F3 path without spilling)
     {"kind": "linear", "step": None, "shape": [2], "exact": True,
      "ops": [["push", 0, [1.0, -1.0]], ["push", 4, [3.0, 0.5]], ["pull", 4], ["pull", 4], ["push", 12, [4.0, 8.5]],
-             ["pull", 6], ["pull", 13], ["pull", 3], ["pull", 12]]},
+             ["pull", 6], ["pull", 13], ["pull", -3], ["pull", 12]]},
     # pull before any publication, outside the range on both sides
     {"kind": "prev", "step": None, "shape": [], "exact": False,
-     "ops": [["pull", 0], ["push", 5, [1.5]], ["pull", 4], ["pull", 6], ["pull", 5], ["push", 9, [2.5]], ["pull", 10], ["pull", 7]]},
+     "ops": [["pull", 0], ["push", 5, [1.5]], ["pull", 4], ["pull", 6], ["pull", 5], ["push", 9, [2.5]], ["pull", 10], ["pull", 7], ["pull", 9]]},
 ]
 
 
@@ -218,6 +219,20 @@ def run_impl(case):
     return {"n": n, "pulls": pulls}
 
 
+def Z(n):
+    """Z literal without scope annotation (the constructors' argument types bind Z scope); hex parses faster"""
+    n = int(n)
+    return hex(n) if n >= 0 else f"(-{hex(-n)})"
+
+
+def Qf(x):
+    """exact value of a double as the model's compact literal fq m e = m / 2^e"""
+    fr = Fraction(x)
+    e = fr.denominator.bit_length() - 1
+    assert fr.denominator == 1 << e
+    return f"(fq {Z(fr.numerator)} {e})"
+
+
 def _kind_term(case):
     k = case["kind"]
     if k == "step":
@@ -229,7 +244,7 @@ def coq_case(case, obs):
     ops = []
     for op in case["ops"]:
         if op[0] == "push":
-            ops.append(C("VPush", Z(op[1]), L(Q(Fraction(v)) for v in op[2])))
+            ops.append(C("VPush", Z(op[1]), L(Qf(v) for v in op[2])))
         else:
             ops.append(C("VPull", Z(op[1])))
     return C("mk_case", _kind_term(case), N(obs["n"]), B(case["exact"]), L(ops))
@@ -240,7 +255,7 @@ def coq_obs(case, obs):
     for r in obs["pulls"]:
         if r[0] == "ok":
             if all(np.isfinite(v) for v in r[1]):
-                res.append(C("VOk", L(Q(Fraction(v)) for v in r[1])))
+                res.append(C("VOk", L(Qf(v) for v in r[1])))
             else:
                 res.append("VOther")
         elif r[0] == "TimeError":
